@@ -108,6 +108,8 @@ template <class C> struct Exec {
     struct USlot {
         Uri* u = nullptr; int state = S_EMPTY; int mgr = 0; bool owned = false;
         std::set<int> texts; std::set<int> deps; int producer = -1;
+        int path_origin = -1;  // kind of the last op that built or rewrote the path structure (parse/addbase/removebase/normalize with PATH)
+        int host_origin = -1;  // same for the host (normalize with HOST)
         std::set<int> ever;    // every text buffer this object ever borrowed from (survives the ownership transfer: this is what source_loss kills)
     };
     struct QSlot {
@@ -328,6 +330,26 @@ template <class C> struct Exec {
         return true;
     }
 
+    // ---------------------------------------------------------------- caller-owned output buffers with canaries on both sides
+    // The store monitor sees stores made by library code and the interposed libc routines; the canaries are the independent
+    // check for stores made by anything else the library might call.
+    struct Guarded { C* buf = nullptr; uint8_t* pre = nullptr; uint8_t* post = nullptr; };
+    enum { GUARD_PRE = 32, GUARD_POST = 96 };
+    Guarded guarded_buf(size_t chars) {
+        Guarded gb;
+        gb.pre = (uint8_t*)arena_alloc(A_OBJ, GUARD_PRE, sizeof(C), perm(0, RS_REDZONE));
+        gb.buf = (C*)arena_alloc(A_OBJ, chars * sizeof(C), sizeof(C), P_RW);
+        gb.post = (uint8_t*)arena_alloc(A_OBJ, GUARD_POST, 1, perm(0, RS_REDZONE));
+        memset(gb.pre, 0xC5, GUARD_PRE); memset(gb.post, 0xC5, GUARD_POST);
+        for (size_t i = 0; i < chars; i++) gb.buf[i] = (C)0x7e;
+        return gb;
+    }
+    bool guards_intact(const Guarded& gb, const char* what) {
+        for (int i = 0; i < GUARD_PRE; i++) if (gb.pre[i] != 0xC5) { violate(V_STORE_BEYOND_CAP, std::string(what) + ": bytes in front of the destination buffer were overwritten", false); return false; }
+        for (int i = 0; i < GUARD_POST; i++) if (gb.post[i] != 0xC5) { violate(V_STORE_BEYOND_CAP, std::string(what) + ": byte " + std::to_string(i) + " behind the stated capacity was overwritten (canary; the store was not made by instrumented code)", false); return false; }
+        return true;
+    }
+
     // ---------------------------------------------------------------- to-string helpers (used by engines too)
     // returns false if the run was aborted. required<0 => chars-required failed with rc
     bool chars_required(int opi, const Uri* u, int* required, int* rc_out) {
@@ -344,11 +366,8 @@ template <class C> struct Exec {
     // one ToString call with capacity cap into a fresh buffer; checks the C05 contract. text_out gets the text on success.
     bool tostring_cap(int opi, const Uri* u, int cap, bool with_written, int required, std::string* text_out, int* rc_out) {
         int alloc_chars = cap > 0 ? cap : 0;
-        arena_alloc(A_OBJ, 32, sizeof(C), perm(0, RS_REDZONE));
-        C* dest = (C*)arena_alloc(A_OBJ, (size_t)alloc_chars * sizeof(C), sizeof(C), P_RW);
-        C* after = (C*)arena_alloc(A_OBJ, 64, 1, perm(0, RS_REDZONE));
-        (void)after;
-        for (int i = 0; i < alloc_chars; i++) dest[i] = (C)0x7e;
+        Guarded gb = guarded_buf((size_t)alloc_chars);
+        C* dest = gb.buf;
         int* written = nullptr;
         if (with_written) { written = (int*)arena_alloc(A_OBJ, sizeof(int), 4, P_RW); *written = -777; arena_alloc(A_OBJ, 16, 1, perm(0, RS_REDZONE)); }
         volatile int rc = 0;
@@ -357,6 +376,7 @@ template <class C> struct Exec {
         unprotect(pr);
         if (!ok) return false;
         *rc_out = rc;
+        guards_intact(gb, "uriToString");
         char buf[200];
         if (required >= 0) {
             if (cap >= required + 1) {
